@@ -74,11 +74,11 @@ Definition addZ (x : Z) (l : list Z) : list Z := if memZ x l then l else x :: l.
 (* SimpleArg::get_reg_id *)
 Definition sarg_reg (a : sarg) : list Z := match a with SReg r _ => [r] | SImm _ => [] end.
 
-(* get_explicitly_used_regs as written in the pinned source: only top-level `LowerArg::Raw` *)
+(* get_explicitly_used_regs before commit 4000fd0 (defect #3): only top-level `LowerArg::Raw` *)
 Definition explicit_arg_top (a : larg) : list Z :=
   match a with Raw s => sarg_reg s | _ => [] end.
 
-(* get_explicitly_used_regs after fixes/c05-diffswitch-explicit-regs.diff: recurse into switches *)
+(* get_explicitly_used_regs (since 4000fd0): every Raw argument, also inside difficulty switches *)
 Fixpoint explicit_arg_deep (a : larg) : list Z :=
   match a with
   | Raw s => sarg_reg s
@@ -101,7 +101,8 @@ Definition explicit_stmt (f : larg -> list Z) (x : lstmt) : list Z :=
 Definition explicit_regs_top (code : list lstmt) : list Z := flat_map (explicit_stmt explicit_arg_top) code.
 Definition explicit_regs_deep (code : list lstmt) : list Z := flat_map (explicit_stmt explicit_arg_deep) code.
 
-(* the version in force is selected by what gen/regs.py finds in the source *)
+(* the version in force is selected by what gen/regs.py finds in the source (the theorems of
+   Props/C05.v need the second one) *)
 Definition explicit_regs_sel (deep : bool) : list lstmt -> list Z :=
   if deep then explicit_regs_deep else explicit_regs_top.
 
